@@ -33,7 +33,7 @@ pub struct SplineJob {
     /// the implementation sees the axis (and the queries) multiplied by this power of two and
     /// the boundary derivative values converted accordingly; the reference stays unscaled
     pub xscale: f64,
-    /// Periodic only: the last data value of every lane differs from the first by 2^-20 relative
+    /// Periodic only: the last data value of every lane differs from the first by 2^-22 relative
     /// (data that "almost closes"). build() has to reject it (C10); should it be accepted, the
     /// result still has to be a C2 piecewise cubic through the given points (C02).
     pub nearly_closed: bool,
@@ -186,8 +186,8 @@ pub fn run_spline_job_t<T: Fl>(job: &SplineJob, want: Want, out: &mut JobOut) {
         .map(|mut l| {
             if job.nearly_closed {
                 let last = l.y.len() - 1;
-                l.y[last] = l.y[0] + 2.0f64.powi(-20) * (1.0 + l.y[0].abs());
-                l.name = format!("{}+2^-20", l.name);
+                l.y[last] = l.y[0] + 2.0f64.powi(-22) * l.y[0].abs(); // (lanes starting at 0 stay closed: a purely relative tolerance would reject them)
+                l.name = format!("{}+2^-22", l.name);
             }
             l
         })
